@@ -8,7 +8,8 @@ from hypothesis import strategies as st
 
 from vf.core import CaseResult, Ctx, Violation, hyp_run
 from vf.gen.wfspec import wfspecs
-from vf.sim.c27_util import RSCase, dev_dump, edits
+from vf.sim.c27_util import (
+    RSCase, crash_violations, dev_dump, edits, harness_spin)
 from vf.sim.drive import outcome_maps, run_async
 
 PROP_ID = 'C25'
@@ -18,7 +19,7 @@ MANIFEST = {
     'engine': 'S',
     'technique': 'stateful PBT: hook after every Scheduler.'
                  'update_data_structure; pool vs PbTaskProxy field compare; '
-                 'client replica fed with every published AllDeltas batch '
+                 'client replica fed with every published delta batch '
                  '(serialise/parse round trip, library apply_delta) compared '
                  'element-wise with the scheduler store + checksum recompute',
     'level_note': 'the ZMQ publisher thread is stubbed: delta content and '
@@ -36,8 +37,9 @@ RULE = (
     'state, is_held, is_queued, is_runahead, flow numbers, set of completed '
     'output labels and per-prerequisite atom satisfaction.  A client replica '
     'starts empty, receives every batch the scheduler put on the publish '
-    'queue from the first (the full snapshot) on, in order, each after a '
-    'SerializeToString/FromString round trip, applies them with '
+    'queue from the first (the full snapshot) on, in order, each per-topic '
+    'message after a SerializeToString/FromString round trip, applies them '
+    'in published order with '
     'cylc.flow.data_store_mgr.apply_delta (clearing a topic first when its '
     'delta is flagged `reloaded`, as the UI server does); after every '
     'update_data_structure at which nothing is pending publication the replica '
@@ -48,9 +50,15 @@ RULE = (
     'command; distinct by the whole case.')
 ASSUMPTIONS = [
     'The client is the one the statement describes: it applies the '
-    'AllDeltas message topic by topic in field order with the library\'s '
-    'apply_delta, clears a topic when the delta says `reloaded`, and compares '
-    'generate_checksum() of its own elements with the delta\'s checksum.',
+    'per-topic delta messages of every published batch in the order the '
+    'scheduler put them into the batch (which is the order the scheduler '
+    'applies them itself) with the library\'s apply_delta, clears a topic '
+    'when its delta says `reloaded`, and compares generate_checksum() of its '
+    'own elements with the delta\'s checksum.  The order of topics inside '
+    'one batch is not fixed by the statement; a client that walks the '
+    'combined AllDeltas message in field-number order (task_proxies before '
+    'edges, as the UI server does) ends up with different dangling edge ids '
+    'when an edge is added and pruned in one batch - observed, not judged.',
     'Pool-vs-store is compared only after update_data_structure calls made '
     'inside a main-loop iteration (the granularity the statement names); the '
     'calls made inside the reload command only feed the replica.',
@@ -87,9 +95,9 @@ def cases(draw):
         e = draw(edits(cur))
         reloads.append(e)
         cur = e['spec']
-    ops = (['loop'] * 3 + ['round'] * 5 + ['ret', 'adv', 'adv', 'del', 'del']
-           + CMD_OPS + ['trigger-new', 'window', 'window', 'reload-edit',
-                        'reload-edit', 'reload'])
+    ops = (['loop'] * 3 + ['round'] * 6 + ['ret', 'adv', 'adv', 'del', 'del']
+           + CMD_OPS + ['trigger-new'] + ['window'] * 3
+           + ['reload-edit'] * 3 + ['reload'])
 
     def mk(t):
         op, n = t
@@ -97,10 +105,12 @@ def cases(draw):
             return ['trigger', n, ['new']]
         return [op, n]
 
-    warm = draw(st.integers(0, 6))
+    # warm-up rounds of the fair schedule (tasks get to run, finish, be
+    # pruned) followed by a random history
+    warm = draw(st.integers(1, 8))
     sched = [['round', 0] for _ in range(warm)] + draw(st.lists(
         st.tuples(st.sampled_from(ops), st.integers(0, 15)).map(mk),
-        max_size=45))
+        min_size=6, max_size=45))
     return {'spec': spec, 'outcomes': outcomes, 'reloads': reloads,
             'schedule': sched}
 
@@ -153,9 +163,12 @@ class StoreMonitor:
         self.stats = {'batches': 0, 'pruned': 0, 'pool_checks': 0,
                       'replica_checks': 0, 'checksum_checks': 0,
                       'tasks_compared': 0, 'reloaded_batches': 0,
-                      'window_resizes': 0, 'atoms_compared': 0}
+                      'window_resizes': 0, 'atoms_compared': 0,
+                      'republished': 0}
         self.first_is_snapshot = None
         self.harness_error = None
+        self.stale_ids = set()
+        self.old_orphan = None     # callable(name) -> bool, set by _check
         # per topic: ids published in `added` and `updated` of one batch
         self.dual = {}
 
@@ -171,6 +184,31 @@ class StoreMonitor:
             return r
 
         schd.update_data_structure = update_data_structure
+
+        # root-cause tagging: a delta created from a TaskProxy object that is
+        # no longer the pooled object of that identity (e.g. the pre-reload
+        # proxy still referenced by a scheduler-side list)
+        dsm = self.dsm
+        pool = schd.pool
+
+        def wrap(name):
+            orig_fn = getattr(dsm, name)
+
+            def fn(itask, *a, **k):
+                try:
+                    cur = pool._get_task_by_id(itask.identity)
+                    if cur is not None and cur is not itask:
+                        mon.stale_ids.add(itask.identity)
+                except Exception:     # noqa: BLE001 (observation only)
+                    pass
+                return orig_fn(itask, *a, **k)
+
+            setattr(dsm, name, fn)
+
+        for name in ('delta_task_state', 'delta_task_outputs',
+                     'delta_task_output', 'delta_task_prerequisite',
+                     'delta_task_flow_nums', 'delta_from_task_proxy'):
+            wrap(name)
 
     def add(self, sig, detail):
         self.viol.append(Violation(
@@ -192,33 +230,39 @@ class StoreMonitor:
 
     # -- replica ---------------------------------------------------------------
     def feed(self):
-        from cylc.flow.data_messages_pb2 import AllDeltas
         from cylc.flow.data_store_mgr import (
-            ALL_DELTAS, WORKFLOW, apply_delta, generate_checksum)
+            ALL_DELTAS, DELTAS_MAP, WORKFLOW, apply_delta, generate_checksum)
         items = self.schd.server.publish_queue.items
         while self.n_applied < len(items):
             batch = items[self.n_applied]
             self.n_applied += 1
             self.stats['batches'] += 1
-            allmsg = None
+            # the per-topic messages of the batch, in the order published
+            # (each after a wire round trip), then the same for the
+            # classification replica
+            topics = []
+            has_all = False
             for topic, delta, _ser in batch:
-                if topic == ALL_DELTAS.encode():
-                    allmsg = delta
-            if allmsg is None:
+                key = topic.decode()
+                if key == ALL_DELTAS:
+                    has_all = True
+                    continue
+                topics.append((key, delta.SerializeToString()))
+            if not has_all:
                 self.add('C25:published-batch-without-all-deltas',
                          f'batch #{self.n_applied} has topics '
                          f'{[t for t, _d, _s in batch]}')
-                continue
-            wire = allmsg.SerializeToString()
-            msg = AllDeltas.FromString(wire)
-            fields = msg.ListFields()
+            subs = [(key, DELTAS_MAP[key].FromString(wire))
+                    for key, wire in topics]
             if self.n_applied == 1:
-                self.first_is_snapshot = bool(fields) and all(
-                    sub.reloaded for _f, sub in fields)
-            if any(sub.reloaded for _f, sub in fields):
+                self.first_is_snapshot = bool(subs) and all(
+                    sub.reloaded for _k, sub in subs)
+            if self.n_applied > 1 and items[self.n_applied - 2] is batch:
+                self.stats['republished'] += 1
+            elif any(sub.reloaded for _k, sub in subs):
                 self.stats['reloaded_batches'] += 1
-            for field, sub in AllDeltas.FromString(wire).ListFields():
-                key = field.name
+            for key, wire in topics:
+                sub = DELTAS_MAP[key].FromString(wire)
                 if sub.reloaded:
                     if key == WORKFLOW:
                         self.dedup[key].Clear()
@@ -230,8 +274,7 @@ class StoreMonitor:
                         el = self.dedup[key].get(e.id)
                         if el is not None:
                             dedupe_lists(el)
-            for field, sub in fields:
-                key = field.name
+            for key, sub in subs:
                 if sub.reloaded:
                     if key == WORKFLOW:
                         self.replica[key].Clear()
@@ -278,10 +321,14 @@ class StoreMonitor:
                 # scheduler on the members: the strict client differs only by
                 # entries it received twice (and by what a duplicate leaves
                 # behind when apply_delta prunes one occurrence)
-                cause = ('element-added-and-updated-in-one-batch'
-                         if id_ in self.dual.get(key, ()) else 'cause-unknown')
+                if id_ in self.dual.get(key, ()):
+                    # root cause known (findings/C25_added_element_...): one
+                    # signature whatever the list field
+                    return ('duplicate-list-entries-in-client:'
+                            'element-added-and-updated-in-one-batch',
+                            detail)
                 return (f'{key}.{name}:duplicate-list-entries-in-client:'
-                        + cause, detail)
+                        'cause-unknown', detail)
         if type(a).__name__.startswith("RepeatedScalar"):
             detail += f" [dedup client: {list(getattr(d, name)) if d is not None else None}]"
         return f"{key}:field:{f}", detail
@@ -322,6 +369,15 @@ class StoreMonitor:
                      f'{self.n_applied} batches')
 
     # -- pool vs store -----------------------------------------------------------
+    def pool_diff(self, tid, fld, detail):
+        sig = f'C25:store-differs-from-pool:{fld}'
+        if tid in self.stale_ids:
+            # root cause known: one signature whatever the field
+            sig = 'C25:store-differs-from-pool:delta-from-stale-task-proxy'
+            detail += (' [a delta for this task was created from a TaskProxy '
+                       'object that is not the pooled one]')
+        self.add(sig, detail)
+
     def compare_pool(self):
         dsm = self.dsm
         data = dsm.data[dsm.workflow_id]
@@ -331,9 +387,15 @@ class StoreMonitor:
             tid = itask.identity
             tp = tps.get(itask.tokens.id)
             if tp is None:
-                self.add('C25:pool-task-missing-from-store',
-                         f'{tid} ({itask.state}) is in the pool but has no '
-                         f'task proxy in the data store')
+                sig = 'C25:pool-task-missing-from-store'
+                note = ''
+                if self.old_orphan is not None and self.old_orphan(
+                        itask.tdef.name):
+                    sig += ':task-definition-removed-by-reload'
+                    note = (' [the task is not defined in the workflow '
+                            'definition loaded by the latest reload]')
+                self.add(sig, f'{tid} ({itask.state}) is in the pool but has '
+                              f'no task proxy in the data store' + note)
                 continue
             self.stats['tasks_compared'] += 1
             st_ = itask.state
@@ -343,22 +405,22 @@ class StoreMonitor:
                     ('is_queued', bool(st_.is_queued), tp.is_queued),
                     ('is_runahead', bool(st_.is_runahead), tp.is_runahead)):
                 if mine != theirs:
-                    self.add(f'C25:store-differs-from-pool:{fld}',
-                             f'{tid}: pool {mine!r}, data store {theirs!r}')
+                    self.pool_diff(tid, fld, f'{tid}: pool {mine!r}, data '
+                                             f'store {theirs!r}')
             try:
                 store_flows = set(json.loads(tp.flow_nums or '[]'))
             except ValueError:
                 store_flows = {'unparsable: ' + tp.flow_nums}
             if store_flows != set(itask.flow_nums):
-                self.add('C25:store-differs-from-pool:flow_nums',
-                         f'{tid}: pool {sorted(itask.flow_nums)}, data '
-                         f'store {tp.flow_nums!r}')
+                self.pool_diff(tid, 'flow_nums',
+                               f'{tid}: pool {sorted(itask.flow_nums)}, data '
+                               f'store {tp.flow_nums!r}')
             pool_outs = {trg for trg, _msg, sat in st_.outputs if sat}
             store_outs = {lab for lab, o in tp.outputs.items() if o.satisfied}
             if pool_outs != store_outs:
-                self.add('C25:store-differs-from-pool:outputs',
-                         f'{tid}: completed in pool {sorted(pool_outs)}, in '
-                         f'data store {sorted(store_outs)}')
+                self.pool_diff(tid, 'outputs',
+                               f'{tid}: completed in pool {sorted(pool_outs)}'
+                               f', in data store {sorted(store_outs)}')
             pool_pre = sorted(
                 (sorted((f'{k.point}/{k.task}', k.output, bool(v))
                         for k, v in pre.items()), bool(pre.is_satisfied()))
@@ -370,8 +432,9 @@ class StoreMonitor:
             self.stats['atoms_compared'] += sum(
                 len(x[0]) for x in pool_pre)
             if pool_pre != store_pre:
-                self.add('C25:store-differs-from-pool:prerequisites',
-                         f'{tid}: pool {pool_pre}, data store {store_pre}')
+                self.pool_diff(tid, 'prerequisites',
+                               f'{tid}: pool {pool_pre}, data store '
+                               f'{store_pre}')
 
 
 async def _check(case, ctx: Ctx) -> CaseResult:
@@ -384,6 +447,17 @@ async def _check(case, ctx: Ctx) -> CaseResult:
         install_reload_monitor(drv)
         mon = StoreMonitor(sim)
         mon.attach()
+
+        def old_orphan(name):
+            """The task is not in the AST loaded by the latest reload that
+            reached the pool (an active task kept after its definition was
+            removed)."""
+            if not drv.reload_log:
+                return False
+            new = (drv.reload_log[-1]['edit'] or {}).get('new')
+            return bool(new and name not in new['tasks'])
+
+        mon.old_orphan = old_orphan
 
         async def cmd_window(n):
             if not sim.running:
@@ -400,7 +474,8 @@ async def _check(case, ctx: Ctx) -> CaseResult:
         await sc.drain()
         if mon.harness_error is not None:
             raise RuntimeError('C25 monitor failed') from mon.harness_error
-        viol = sc.crash_violations('C25') + mon.viol
+        viol = crash_violations(sc, 'C25') + mon.viol
+        spin = harness_spin(sim)
         st_ = mon.stats
         classes = set()
         n_cmd = 0
@@ -411,16 +486,22 @@ async def _check(case, ctx: Ctx) -> CaseResult:
                 if e['cmd'] == 'reload':
                     if e.get('applied'):
                         classes.add('reload-applied:' + str(e.get('edit')))
-                    if e.get('raised'):
+                    if e.get('raised') and not spin:
                         viol.append(Violation(
                             'C25:reload-command-raised:' + e['raised'],
                             f'reload raised {e["err"]}'))
+        if spin:
+            classes.add('engine-abort:scheduler-waits-forever-inside-one-call')
         if mon.first_is_snapshot is False:
             classes.add('first-batch-not-a-full-snapshot')
         if st_['pruned']:
             classes.add('pruned-elements')
         if st_['reloaded_batches'] > 1:
-            classes.add('reloaded-batch-after-start')
+            classes.add('full-snapshot-published-after-start')
+        if st_['republished']:
+            classes.add('same-batch-object-published-twice')
+        if st_['atoms_compared']:
+            classes.add('prerequisite-atoms-compared')
         for lim in (5, 20, 50):
             if st_['batches'] >= lim:
                 classes.add(f'batches>={lim}')
@@ -431,7 +512,7 @@ async def _check(case, ctx: Ctx) -> CaseResult:
             uniq.setdefault(v.sig, v)
         return CaseResult(
             list(uniq.values()), nontrivial, sorted(classes),
-            inconclusive=sc.inconclusive,
+            inconclusive=sc.inconclusive or spin,
             info={'flow': drv.flow_text, 'stats': st_})
 
 
